@@ -106,7 +106,10 @@ def run(ctx, report):
         inp = {'text': text[:3000], 'mask': mask, 'charset': setting[0], 'what': what, 'ack': ack[:1500]}
         if info['swallowed']:
             report.count('ack:visitor-raised')
-            report.fail('C06:incomplete:%s' % info['swallowed'][0].split(': ')[-1],
+            import re as _re
+            versions = set(_re.findall(r'(?:^|[~\n\r])\s*ISA.{81}(\d{5})', text, _re.S))
+            mixed = 'mixed-versions:' if len(versions) > 1 else ''
+            report.fail('C06:incomplete:%s%s' % (mixed, info['swallowed'][0].split(': ')[-1]),
                         'the acknowledgement was cut short: %s' % info['swallowed'][0], inp)
             return
         a = ackparse.Ack(ack)
